@@ -39,6 +39,7 @@ def harness_jobs(lib, label, full, masked_only=False, thorough=False):
     c15 = prog("c15", ["harness/c15.c"] + STD)
     for alg in range(3):
         jobs.append((c01, [alg, 0, 40 if full else 24, 1 if (full and thorough) else 0], label, EX))
+        jobs.append((c01, [alg, "chunks", 0, 1 if (thorough and full) else 0], label, EX))   # chunk sizes of the incremental calls around 256/512/768/1024(/65536/131072)
         for fam in (0, 1, 3, 4):
             jobs.append((c02, [fam, alg, 3, 0], label, EX))
         jobs.append((c06, ["enc", "siv", alg, 3, 20], label, EX))
